@@ -6,13 +6,15 @@ VERIF = os.path.dirname(os.path.dirname(os.path.abspath(__file__)))
 name, checks = sys.argv[1], sys.argv[2:]
 d = os.path.join(VERIF, "seeded", name)
 meta = json.load(open(os.path.join(d, "meta.json")))
-assert subprocess.run("git -C /repo diff --quiet", shell=True).returncode == 0, "/repo has uncommitted changes"
-r = subprocess.run("git -C /repo apply %s/patch.diff" % d, shell=True)
+# the change is applied in a scratch worktree of /repo's HEAD (never in /repo itself); the checks are pointed at it
+wt = "/tmp/seedrun-%s" % name
+subprocess.run("git -C /repo worktree remove --force %s" % wt, shell=True, stdout=subprocess.DEVNULL, stderr=subprocess.DEVNULL)
+r = subprocess.run("git -C /repo worktree add -q --detach %s HEAD && git -C %s apply %s/patch.diff" % (wt, wt, d), shell=True)
 assert r.returncode == 0
 try:
     for c in checks:
         t = time.time()
-        p = subprocess.run("cd %s && ./check %s --tier quick" % (VERIF, c), shell=True, stdout=subprocess.PIPE, stderr=subprocess.STDOUT, text=True)
+        p = subprocess.run("cd %s && REBENCH_REPO=%s ./check %s --tier quick" % (VERIF, wt, c), shell=True, stdout=subprocess.PIPE, stderr=subprocess.STDOUT, text=True)
         viol = [l for l in p.stdout.splitlines() if l.startswith("VIOLATION")]
         meta["checks"][c] = dict(exit=p.returncode, violation=viol[0] if viol else None, wall_s=round(time.time() - t, 1),
                                  head=subprocess.run("git -C %s rev-parse --short HEAD" % VERIF, shell=True, stdout=subprocess.PIPE, text=True).stdout.strip())
@@ -23,6 +25,6 @@ try:
                 j = json.load(open(rp)); print("   clause:", j.get("clause"), "| broken:", [b["name"] for b in j.get("broken", [])][:3])
             except Exception as e: print("   (replay unreadable)", e)
 finally:
-    subprocess.run("git -C /repo checkout -- . && git -C /repo clean -fdq", shell=True)
+    subprocess.run("git -C /repo worktree remove --force %s" % wt, shell=True)
     subprocess.run("cd %s && git checkout -q -- evidence 2>/dev/null" % VERIF, shell=True)
 json.dump(meta, open(os.path.join(d, "meta.json"), "w"), indent=1)
